@@ -201,6 +201,7 @@ func evaluate(spec *propSpec, tier string, extra map[string][]byte) (obls []*Obl
 			exceptions = appendUniq(exceptions, n)
 		}
 	}
+	sort.Strings(order)
 	for _, k := range order {
 		mg := byKey[k]
 		mg.o.Arch = strings.Join(mg.archs, ",")
